@@ -16,4 +16,8 @@ theorem closestLoc_componentwise : Gen.closestLocAxes = [(0, 0, 0), (1, 1, 1), (
 /-- `min_distance_to_face` uses each width component exactly once, with its own coordinate -/
 theorem minDistToFace_componentwise : Gen.minDistToFaceWidthAxes = [0, 1, 2] := by decide
 
+/-- the ring termination bound uses the SMALLEST cell width: a particle in a cell at ring distance > r is at least
+`dist_to_face + r * min width` away (`KnnProofs.ring_bound_3d`); the largest width would overestimate and stop too early -/
+theorem ringBound_uses_min_width : Gen.ringBoundWidthReduction = "min_element" := by decide
+
 end MVoro.Obl
